@@ -97,7 +97,7 @@ pub fn run_jobs(specs: Vec<ShardSpec>, par: usize, tag: &str) -> Vec<(ShardSpec,
                 .arg(&specf)
                 .arg(&out)
                 .arg(&cur)
-                .env("ASAN_OPTIONS", "detect_leaks=0:abort_on_error=0:exitcode=98:allocator_may_return_null=1:handle_segv=1:print_summary=1")
+                .env("ASAN_OPTIONS", "detect_leaks=0:abort_on_error=0:exitcode=98:allocator_may_return_null=1:handle_segv=1:print_summary=1:detect_stack_use_after_scope=0")
                 .env("RUST_BACKTRACE", "0")
                 .stdin(Stdio::null())
                 .stdout(Stdio::from(logf.try_clone().unwrap()))
@@ -453,7 +453,7 @@ fn confirm(path: &Path, spec: &ShardSpec, v: &ViolRec) -> Confirm {
             .arg("replay")
             .arg(path)
             .arg("--quiet")
-            .env("ASAN_OPTIONS", "detect_leaks=0:abort_on_error=0:exitcode=98:allocator_may_return_null=1")
+            .env("ASAN_OPTIONS", "detect_leaks=0:abort_on_error=0:exitcode=98:allocator_may_return_null=1:detect_stack_use_after_scope=0")
             .env("GMC_HANG_SECS", "20")
             .stdin(Stdio::null())
             .output();
